@@ -395,6 +395,9 @@ func run(c *fw.Ctx, idx int) {
 	if r.Chance(1, 3) {
 		p.Metadata = map[string]string{"k": r.Str(3)}
 	}
+	if r.Chance(1, 3) {
+		p.ExpireAt = gen.ExpiryBase.Add(time.Duration(r.Intn(100000)) * time.Second) // a fixed instant far ahead
+	}
 	var t *tree
 	bigShard := idx%40 == 7 // one shard with more than 5984 links
 	if bigShard {
